@@ -1,3 +1,4 @@
+import re
 """Unit `proto`: srtla-protocol decoders (C15, feeds C09/C14/C07 through the shell units)."""
 from gen import Unit, C, impl_block, mod_block
 import prelude
@@ -81,6 +82,32 @@ pub open spec fn srtla_acks(buf: Seq<u8>, k: int) -> Seq<u32>
 {
     if k <= 0 { Seq::empty() } else { srtla_acks(buf, k - 1).push(be32_at(buf, 4 + 4 * (k - 1))) }
 }
+
+// ---------- builder side (create_ack_packet): std byte-order writers as stubs over the same spec_be16 / spec_be32 ----------
+// vec![0u8; n]
+#[verifier::external_body] pub fn vec_zeroed(n: usize) -> (r: Vec<u8>) ensures r.len() == n, forall|i: int| 0 <= i < n ==> #[trigger] r[i] == 0u8 { vec![0u8; n] }
+// buf[off..off + 2].copy_from_slice(&x.to_be_bytes())   (the slice range must be in bounds: panic condition)
+#[verifier::external_body] pub fn put_be16(buf: &mut Vec<u8>, off: usize, x: u16)
+    requires off + 2 <= old(buf).len(),  // @panic-model
+    ensures final(buf).len() == old(buf).len(), spec_be16(final(buf)[off as int], final(buf)[off + 1]) == x,
+        forall|j: int| 0 <= j < old(buf).len() && !(off <= j < off + 2) ==> #[trigger] final(buf)[j] == old(buf)[j],
+{ buf[off..off + 2].copy_from_slice(&x.to_be_bytes()); }
+#[verifier::external_body] pub fn put_be32(buf: &mut Vec<u8>, off: usize, x: u32)
+    requires off + 4 <= old(buf).len(),  // @panic-model
+    ensures final(buf).len() == old(buf).len(), be32_at(final(buf)@, off as int) == x,
+        forall|j: int| 0 <= j < old(buf).len() && !(off <= j < off + 4) ==> #[trigger] final(buf)[j] == old(buf)[j],
+{ buf[off..off + 4].copy_from_slice(&x.to_be_bytes()); }
+// the first k decoded entries only read bytes below 4 + 4k
+pub proof fn lemma_srtla_acks_frame(a: Seq<u8>, b: Seq<u8>, k: int)
+    requires k >= 0, a.len() >= 4 + 4 * k, b.len() >= 4 + 4 * k, forall|j: int| 0 <= j < 4 + 4 * k ==> a[j] == b[j],
+    ensures srtla_acks(a, k) == srtla_acks(b, k),
+    decreases k,
+{
+    if k > 0 {
+        lemma_srtla_acks_frame(a, b, k - 1);
+        assert(be32_at(a, 4 + 4 * (k - 1)) == be32_at(b, 4 + 4 * (k - 1)));
+    }
+}
 '''
 
 
@@ -156,3 +183,27 @@ def add_proto(u):
                      C('C15.proto.parse_srtla_ack.count', 'out.len() == (i - 4) / 4')],
                 dec='buf.len() - i'),
     }))
+
+    # builders.rs: create_ack_packet round trip for ANY number of entries (the sender itself never builds ACKs; receivers and tests do)
+    u.add(u.fn(P + 'builders.rs', 'create_ack_packet', sub='proto', props=('C15',), ret='pkt_r',
+               pre_rewrite=[('SmallVec::from_vec(vec![0u8; 4 + 4 * acks.len()])', 'vec_zeroed(4 + 4 * acks.len())', 1),
+                            ('pkt[0..2].copy_from_slice(&SRTLA_TYPE_ACK.to_be_bytes());', 'put_be16(&mut pkt, 0, SRTLA_TYPE_ACK);', 1),
+                            (re.compile(r'pkt\[(\d+)\] = (0x[0-9a-fA-F]+);'), r'pkt.set(\1, \2);', 2),
+                            ('pkt[off..off + 4].copy_from_slice(&ack.to_be_bytes());', 'put_be32(&mut pkt, off, ack);', 1)],
+               requires=['acks.len() < 0x1000_0000'],
+               ensures=[
+                   C('C15.proto.create_ack_packet.length_is_4_plus_4n', 'pkt_r.len() == 4 + 4 * acks.len()'),
+                   C('C15.proto.create_ack_packet.decodes_back_to_the_same_list', 'spec_parse_srtla_ack(pkt_r@) =~= acks@'),
+                   C('C15.proto.create_ack_packet.type_is_srtla_ack', 'spec_packet_type(pkt_r@) == Some(0x9100u16)'),
+               ],
+               loops={0: dict(inv=['i_nx <= acks.len()', 'acks.len() < 0x1000_0000', 'pkt.len() == 4 + 4 * acks.len()', 'spec_packet_type(pkt@) == Some(0x9100u16)',
+                                   C('C15.proto.create_ack_packet.decodes_back_to_the_same_list', 'srtla_acks(pkt@, i_nx as int) =~= acks@.subrange(0, i_nx as int)')],
+                              dec='acks.len() - i_nx',
+                              after='    proof { assert(acks@.subrange(0, acks@.len() as int) =~= acks@); }',
+                              begin='        let ghost p0 = pkt@;',
+                              end="""        proof {
+            let k = i_nx as int - 1;
+            lemma_srtla_acks_frame(p0, pkt@, k);
+            assert(acks@.subrange(0, k + 1) =~= acks@.subrange(0, k).push(acks@[k]));
+        }""")},
+               ))
